@@ -59,10 +59,24 @@ const (
 	verifC31Redirect    = "redirect"              // 302 to the second URL (the redirected request is the next request of the script)
 	verifC31Err416      = "416"                   // 416
 	verifC31Lie206      = "206-full"              // 206 status (Content-Range 0-) but the body is the full content
+	// bodies LONGER than what is left to deliver (status and headers as a correct server would send them: 200 + full content
+	// without Range, 206 + rest of the content for a Range request), verifC31Extra bytes too many
+	verifC31Over         = "overlong"           // right body followed by extra bytes, Content-Length = what is sent, clean end
+	verifC31OverDrop     = "overlong+drop"      // right body followed by extra bytes, a still larger Content-Length announced, connection closed
+	verifC31OverJunkDrop = "overlong-junk+drop" // as many junk bytes as overlong+drop sends, a still larger Content-Length announced, connection closed
 )
 
-var verifC31Deviations = []string{verifC31IgnoreRange, verifC31DropConn, verifC31Drop0, verifC31DropMid, verifC31IgnoreDrop,
-	verifC31Short, verifC31Corrupt, verifC31Err500, verifC31Redirect, verifC31Err416, verifC31Lie206}
+const verifC31Extra = 16
+
+var verifC31OverlongDeviations = []string{verifC31Over, verifC31OverDrop, verifC31OverJunkDrop}
+
+var verifC31Deviations = append([]string{verifC31IgnoreRange, verifC31DropConn, verifC31Drop0, verifC31DropMid, verifC31IgnoreDrop,
+	verifC31Short, verifC31Corrupt, verifC31Err500, verifC31Redirect, verifC31Err416, verifC31Lie206}, verifC31OverlongDeviations...)
+
+// verifC31OverlongCompanions: in scripts with three deviations (thorough tier) an over-long behaviour is only combined with
+// these (and with other over-long behaviours): the ones that make the client resume, start over, or go through the
+// hash-mismatch retry. Scripts with at most two deviations use the full alphabet.
+var verifC31OverlongCompanions = []string{verifC31IgnoreRange, verifC31DropMid, verifC31Corrupt, verifC31Err500, verifC31Lie206}
 
 // ---- pre-existing .partial states ----
 
@@ -74,6 +88,14 @@ func verifC31Content() []byte {
 	b := make([]byte, verifC31Size)
 	for i := range b {
 		b[i] = byte(0x21 + i) // all bytes distinct: any misplaced or stale byte changes the digest
+	}
+	return b
+}
+
+func verifC31ExtraBytes() []byte {
+	b := make([]byte, verifC31Extra)
+	for i := range b {
+		b[i] = byte(0xa1 + i) // distinct from every content byte
 	}
 	return b
 }
@@ -279,6 +301,14 @@ func (s *verifC31Server) handle(w http.ResponseWriter, r *http.Request) {
 		reply(416, map[string]string{"Content-Range": fmt.Sprintf("bytes */%d", size)}, nil)
 	case verifC31Lie206:
 		reply(206, map[string]string{"Content-Range": fmt.Sprintf("bytes 0-%d/%d", size-1, size)}, s.content)
+	case verifC31Over:
+		reply(status, hdr, append(append([]byte(nil), body...), verifC31ExtraBytes()...))
+	case verifC31OverDrop:
+		long := append(append([]byte(nil), body...), verifC31ExtraBytes()...)
+		verifC31RawReply(w, status, hdr, len(long)+verifC31Extra, long)
+	case verifC31OverJunkDrop:
+		junk := []byte(strings.Repeat("Z", len(body)+verifC31Extra))
+		verifC31RawReply(w, status, hdr, len(junk)+verifC31Extra, junk)
 	default:
 		panic("verif C31: unknown behaviour " + b)
 	}
@@ -460,7 +490,7 @@ func verifC31Scripts(maxDev int) [][]string {
 	var out [][]string
 	var rec func(cur []string, devs, oks int)
 	rec = func(cur []string, devs, oks int) {
-		if len(cur) == 0 || cur[len(cur)-1] != verifC31OK {
+		if (len(cur) == 0 || cur[len(cur)-1] != verifC31OK) && verifC31ScriptAdmitted(cur) {
 			out = append(out, append([]string(nil), cur...))
 		}
 		if oks == 0 && devs < maxDev {
@@ -474,6 +504,37 @@ func verifC31Scripts(maxDev int) [][]string {
 	}
 	rec(nil, 0, 0)
 	return out
+}
+
+// verifC31ScriptAdmitted: scripts with more than two deviations that contain an over-long behaviour only combine it
+// with the companion sub-menu (keeps the thorough tier inside its budget); everything else is admitted.
+func verifC31ScriptAdmitted(script []string) bool {
+	if verifC31Devs(script) <= 2 {
+		return true
+	}
+	in := func(list []string, b string) bool {
+		for _, x := range list {
+			if x == b {
+				return true
+			}
+		}
+		return false
+	}
+	over := false
+	for _, b := range script {
+		if in(verifC31OverlongDeviations, b) {
+			over = true
+		}
+	}
+	if !over {
+		return true
+	}
+	for _, b := range script {
+		if b != verifC31OK && !in(verifC31OverlongDeviations, b) && !in(verifC31OverlongCompanions, b) {
+			return false
+		}
+	}
+	return true
 }
 
 func verifC31Devs(script []string) int {
@@ -500,8 +561,8 @@ func (c verifC31Case) key(consumed []string) string {
 }
 
 func TestC31(t *testing.T) {
-	r := eng.Start("C31", "fault_enumeration", 170*time.Second, 15*time.Minute)
-	r.Assume("the HTTP server is a model (httptest server scripted per request); its 12 behaviours are the fault alphabet",
+	r := eng.Start("C31", "fault_enumeration", 240*time.Second, 16*time.Minute)
+	r.Assume("the HTTP server is a model (httptest server scripted per request); its 15 behaviours (correct service + 14 deviations, three of them bodies longer than declared) are the fault alphabet; in scripts with 3 deviations the over-long behaviours are only combined with each other and with ignore-range, drop-mid, corrupt, 500, 206-full",
 		"content is 64 distinct bytes with declared size and SHA3-384; larger bodies (multi-chunk copies) are not covered",
 		"retry strategy replaced by a sleep-free LimitCount(n) (n = 7 as in production; n = 2, to reach exhaustion, for scripts with at most 2 deviations)",
 		"transfer-speed monitor, rate limiting, deltas, authentication refresh and context cancellation are not exercised",
@@ -544,6 +605,7 @@ func TestC31(t *testing.T) {
 		}
 	}
 	r.Info("bounds", map[string]int{"max_deviations": maxDev, "scripts": len(scripts), "deviating_behaviours": len(verifC31Deviations),
+		"overlong_behaviours": len(verifC31OverlongDeviations), "overlong_companions_in_3_deviation_scripts": len(verifC31OverlongCompanions),
 		"partial_states": len(verifC31Partials), "leave_partial_values": 2, "retry_limits": len(retries), "cases": total, "content_bytes": verifC31Size})
 
 	if r.Sharded(16) {
@@ -598,6 +660,12 @@ outer:
 					key := c.key(res.Consumed)
 					if res.Deviations > 0 {
 						r.Distinct("nontrivial_case", key)
+					}
+					for _, s := range res.Consumed {
+						if strings.HasPrefix(s, "overlong") {
+							r.Add("cases_with_overlong_response_served", 1)
+							break
+						}
 					}
 					for ci, call := range res.Calls {
 						r.Distinct("outcome", fmt.Sprintf("%s/target=%s/partial-left=%v", call.ErrClass, strings.SplitN(call.Target, ":", 2)[0], call.PartialLen >= 0))
